@@ -123,6 +123,16 @@ def r1_stage_order(ctx) -> None:
             r.ok("C14.R1", cr.qual, f"{what} (interpreted; stages: {' → '.join(tr)})", cr.loc)
         else:
             r.violation("C14.R1", cr.qual, f"{what}: stages ran as {' → '.join(tr)}", "stage order violated: transformations must run before conversion, query finishing before finalisation/post-processing", cr.loc)
+    # a converter called on a backend that has not converted before builds the pipeline itself
+    from .standins import backend_with_real_init
+    for fn_ in ("convert_rule", "convert_correlation_rule"):
+        me_, _env, _IK, inits_ = backend_with_real_init(ctx)
+        o_ = run_per_rule_converter(ctx, fn_, output=True, me=me_, keep_pipeline=True)
+        fq = prog.func(f"{BK}.{fn_}")
+        if o_.raised is None and inits_:
+            r.ok("C14.R1", fq.qual, "on a fresh backend the converter initialises the processing pipeline before applying it", fq.loc)
+        else:
+            r.violation("C14.R1", fq.qual, f"self.last_processing_pipeline.apply(rule): {'raises ' + str(o_.raised) if o_.raised is not None else 'no initialisation'}", "the pipeline is applied before it was initialised: the converter cannot be called on its own", fq.loc)
     # parsed conditions are read after the pipeline ran (the pipeline may rewrite conditions)
     if first["read conditions"] is not None and first["pipeline"] is not None and first["pipeline"] < first["read conditions"]:
         r.ok("C14.R1", cr.qual, "rule.detection.parsed_condition is read only after the pipeline was applied", cr.loc)
@@ -204,26 +214,42 @@ def _flatten_add(e: ast.AST) -> Optional[list[ast.AST]]:
 
 def r2_assembly(ctx) -> None:
     r, prog = ctx.r, ctx.prog
-    r.rule("C14.R2", "init_processing_pipeline combines backend pipeline + user pipeline + output-format pipeline in this operand order and sets vars afterwards")
+    r.rule("C14.R2", "init_processing_pipeline combines backend pipeline + user pipeline + output-format pipeline in this operand order and sets vars afterwards — interpreted (sa.tabulate, Proxy) on stand-in pipelines, with and without user pipeline, for the default and a named format")
+    from .standins import backend_with_real_init
     f = prog.func(BK + ".init_processing_pipeline")
-    defs = [n for n in walk_no_nested(f.node) if isinstance(n, ast.Assign) and unparse(n.targets[0]) == "self.last_processing_pipeline"]
-    if len(defs) != 1:
-        raise AnalysisError(f"{f.qual}: assignment of last_processing_pipeline not found")
-    ops = _flatten_add(defs[0].value)
-    if ops is None:
-        raise AnalysisError(f"{f.qual}: combined pipeline is neither a '+' chain nor sum([...])")
-    txt = [unparse(o) for o in ops]
-    want = ["self.backend_processing_pipeline", "self.processing_pipeline", "self.output_format_processing_pipeline[output_format or self.default_format]"]
-    loc = f"{f.module.relpath}:{defs[0].lineno}"
-    if txt == want:
-        r.ok("C14.R2", f.qual, " + ".join(txt), loc)
+    loc = f.loc
+    bad_order, bad_vars = [], []
+    for user in (True, False):
+        for fmt in (None, "test"):
+            me, env, IK, inits = backend_with_real_init(ctx, user_pipeline=user)
+            from ..tabulate import Raised as _Raised2
+            try:
+                me.init_processing_pipeline(fmt)
+            except _Raised2 as ex:
+                bad_order.append(f"user pipeline {'given' if user else 'absent'}, format {fmt!r}: raises {ex}")
+                continue
+            a = me.attrs()
+            lp = a.get("last_processing_pipeline")
+            want = ["backend"] + (["user"] if user else []) + ["fmt-" + (fmt or "default")]
+            case = f"user pipeline {'given' if user else 'absent'}, format {fmt!r}"
+            if getattr(lp, "names", None) != want:
+                bad_order.append(f"{case}: combined pipeline {getattr(lp, 'names', lp)!r} instead of {want}")
+                continue
+            wv = {"from_backend": 1, "backend_opt": "val", "backend": "bk", "output_format": fmt or "default"}
+            if user:
+                wv["from_user"] = 1
+            if lp.vars != wv:
+                bad_vars.append(f"{case}: vars of the combined pipeline {lp.vars} instead of {wv}")
+            if a["backend_processing_pipeline"].vars != {"from_backend": 1} or (user and a["processing_pipeline"].vars != {"from_user": 1}):
+                bad_vars.append(f"{case}: vars were written into an operand ({a['backend_processing_pipeline'].vars})")
+    if not bad_order:
+        r.ok("C14.R2", f.qual, "backend pipeline + user pipeline + pipeline of the requested (or default) output format, in this order (4 interpreted cases)", loc)
     else:
-        r.violation("C14.R2", f.qual, " + ".join(txt), f"operand order differs from backend + user + output-format ({want})", loc)
-    upd = [n for n in walk_no_nested(f.node) if isinstance(n, (ast.Call, ast.Subscript)) and "last_processing_pipeline.vars" in unparse(n) and n.lineno <= defs[0].lineno and n is not defs[0]]
-    if upd:
-        r.violation("C14.R2", f.qual, short(upd[0]), "vars are written before the combined pipeline exists (they would be lost or land in an operand)", loc)
+        r.violation("C14.R2", f.qual, bad_order[0], "operand order differs from backend + user + output-format", loc)
+    if not bad_vars:
+        r.ok("C14.R2", f.qual, "backend vars (backend_<option>, backend, output_format) are set on the combined pipeline after assembly, operands untouched", loc)
     else:
-        r.ok("C14.R2", f.qual, "backend vars are set on the combined pipeline after assembly", loc)
+        r.violation("C14.R2", f.qual, bad_vars[0], "vars are written before the combined pipeline exists (they would be lost or land in an operand), or not at all", loc)
     r.floor("C14.R2", 2)
 
 
@@ -273,61 +299,68 @@ def r3_concatenation(ctx) -> None:
 def r6_format_of_cached_pipeline(ctx) -> None:
     """The output-format pipeline is the last stage of the combined pipeline: a cached combination belongs to one format."""
     r, prog = ctx.r, ctx.prog
-    r.rule("C14.R6", "the per-rule converters reuse the combined pipeline only for the output format it was built for: init_processing_pipeline records `output_format or self.default_format`, and the guard in front of every conditional init compares the record with the requested format")
-    ini = prog.func("sigma.conversion.base.Backend.init_processing_pipeline")
-    rec = [n for n in walk_no_nested(ini.node) if isinstance(n, ast.Assign) and isinstance(n.targets[0], ast.Attribute) and unparse(n.targets[0].value) == "self"
-           and unparse(n.value).replace(" ", "") == "output_formatorself.default_format"]
-    attrs = {n.targets[0].attr for n in rec}
+    r.rule("C14.R6", "the per-rule converters reuse the combined pipeline only for the output format it was built for: both converters interpreted (sa.tabulate, Proxy; init_processing_pipeline of the source included) on one backend object with a sequence of requested formats — the pipeline applied to each rule ends with the pipeline of the format requested for it")
+    from .standins import backend_with_real_init, run_per_rule_converter, PipeStandin
     n = 0
-    for q, f in sorted(prog.funcs.items()):
-        if not q.startswith("sigma.conversion.base.Backend."):
-            continue
-        for c in (x for x in walk_no_nested(f.node) if isinstance(x, ast.Call) and call_name(x) == "self.init_processing_pipeline"):
-            guard = next((a for a in prog.ancestors(c) if isinstance(a, ast.If)), None)
-            loc = f"{f.module.relpath}:{c.lineno}"
-            if guard is None:
-                r.ok("C14.R6", q, "pipeline initialised unconditionally for the requested format", loc)
-                n += 1
-                continue
+    for fn in ("convert_rule", "convert_correlation_rule"):
+        f = prog.func(f"sigma.conversion.base.Backend.{fn}")
+        for seq in (("test", None, "test"), (None, "test", None), (None, None), ("test", "test")):
+            me, env, IK, inits = backend_with_real_init(ctx)
+            wrong = []
+            for k, fmt in enumerate(seq):
+                del PipeStandin.log[:]
+                o = run_per_rule_converter(ctx, fn, output=True, me=me, keep_pipeline=True, output_format=fmt)
+                if o.raised is not None:
+                    wrong.append(f"call {k + 1} (format {fmt!r}) raises {o.raised}")
+                    break
+                applied = [e for e in PipeStandin.log if e[0] == "apply"]
+                want = "fmt-" + (fmt or "default")
+                if len(applied) != 1 or applied[0][1][-1] != want or applied[0][2].get("output_format") != (fmt or "default"):
+                    wrong.append(f"call {k + 1} (format {fmt!r}) runs the pipeline {list(applied[0][1]) if applied else None} with output_format var {applied[0][2].get('output_format') if applied else None!r}")
             n += 1
-            t = unparse(guard.test).replace(" ", "")
-            compared = [a for a in attrs if a in t and "(output_formatorself.default_format)" in t]
-            if compared:
-                r.ok("C14.R6", q, f"re-initialised when self.{compared[0]} differs from the requested format", loc)
+            if not wrong:
+                r.ok("C14.R6", f.qual, f"requested formats {seq}: every rule runs through the pipeline of its requested format", f.loc)
             else:
-                r.violation("C14.R6", q, short(guard.test, 120),
-                            "the combined pipeline of an earlier call is reused whatever output format is requested now: convert(default) followed by convert_rule(rule, 'test') applies no 'test' pipeline (and the other way round the 'test' pipeline leaks into 'default'), while query finalisation does use the requested format", loc)
+                r.violation("C14.R6", f.qual, f"requested formats {seq}: {wrong[0]}",
+                            "the combined pipeline of an earlier call is reused whatever output format is requested now: convert(default) followed by convert_rule(rule, 'test') applies no 'test' pipeline (and the other way round the 'test' pipeline leaks into 'default'), while query finalisation does use the requested format", f.loc)
     r.floor("C14.R6", 3)
 
 
 def r7_finalizers_get_the_list(ctx) -> None:
     """Finalizers are documented to operate on the complete list of generated queries."""
     r, prog = ctx.r, ctx.prog
-    r.rule("C14.R7", "pipeline finalizers receive the list of queries: in Backend.finalize the argument of last_processing_pipeline.finalize() is the `queries` parameter (or a value every format method returns as a list), not the format-specific collapsed output")
+    r.rule("C14.R7", "pipeline finalizers receive the list of queries: Backend.finalize, interpreted (sa.tabulate, Proxy) with a format method that keeps the list and one that collapses it into a string, hands the pipeline's finalizers the query list — not the format-specific collapsed output")
+    from ..tabulate import Proxy, call_method, Raised
+    from .standins import PipeStandin
     f = prog.func("sigma.conversion.base.Backend.finalize")
-    calls = [c for c in walk_no_nested(f.node) if isinstance(c, ast.Call) and call_name(c).endswith("last_processing_pipeline.finalize")]
-    if not calls:
-        raise AnalysisError(f"{f.qual}: call of the pipeline finalizers not found")
-    for c in calls:
-        loc = f"{f.module.relpath}:{c.lineno}"
-        arg = c.args[0] if c.args else None
-        src = unparse(arg) if arg is not None else "?"
-        if src == "queries":
-            r.ok("C14.R7", f.qual, "finalizers run on the list of queries", loc)
-            continue
-        defs = [unparse(v) for v in assignments_to(f.node, src) if isinstance(v, ast.AST)] if isinstance(arg, ast.Name) else [src]
-        if any("finalize_output_" in d for d in defs):
-            # the format methods that do not return a list
-            nonlist = []
-            for q, m in sorted(prog.funcs.items()):
-                if m.cls is not None and m.name.startswith("finalize_output_") and m.module.name.startswith("sigma."):
-                    ann = unparse(m.node.returns) if m.node.returns is not None else "?"
-                    if not ann.startswith(("list", "List")) and ann != "Any":
-                        nonlist.append(f"{m.cls.name}.{m.name} -> {ann}")
-            r.violation("C14.R7", f.qual, short(c, 100) + f"  [{src} = {defs[0][:60]}]",
-                        f"the finalizers are handed the output of the format method; formats that collapse the list ({', '.join(nonlist[:4]) or 'str/bytes/json formats'}) hand them one string: the stock concat finalizer then joins its characters ('m ;; a ;; p …'), json/yaml finalizers dump a single string, bytes + concat raises TypeError", loc)
-        else:
-            r.violation("C14.R7", f.qual, short(c, 100), f"finalizers run on {src}, which is not the query list", loc)
+    B = "sigma.conversion.base.Backend"
+    got = {}
+    for fmt in ("default", "str"):
+        del PipeStandin.log[:]
+        env = {"SigmaBackendError": type("SigmaBackendError", (Exception,), {})}
+        me = Proxy(prog, B, env, {"formats": {"default": "d", "str": "s"}, "last_processing_pipeline": PipeStandin(["p"]), "finalize_output_default": lambda qs: list(qs),
+                                  "finalize_output_str": lambda qs: "\n".join(qs), "default_format": "default"}, interp_kwargs={"max_steps": 4000})
+        try:
+            call_method(prog, B, "finalize", me, env, ["q1", "q2"], fmt, interp_kwargs={"max_steps": 4000})
+        except Raised as ex:
+            raise AnalysisError(f"{f.qual}: raises {ex} on the stand-in backend")
+        fin = [e for e in PipeStandin.log if e[0] == "finalize"]
+        if len(fin) != 1:
+            raise AnalysisError(f"{f.qual}: call of the pipeline finalizers not found ({len(fin)} calls)")
+        got[fmt] = fin[0][2]
+    if got["default"] == ["q1", "q2"] and got["str"] == ["q1", "q2"]:
+        r.ok("C14.R7", f.qual, "finalizers run on the list of queries, whatever the output format", f.loc)
+    elif got["default"] == ["q1", "q2"] and got["str"] == "q1\nq2":
+        nonlist = []
+        for q, m in sorted(prog.funcs.items()):
+            if m.cls is not None and m.name.startswith("finalize_output_") and m.module.name.startswith("sigma."):
+                ann = unparse(m.node.returns) if m.node.returns is not None else "?"
+                if not ann.startswith(("list", "List")) and ann != "Any":
+                    nonlist.append(f"{m.cls.name}.{m.name} -> {ann}")
+        r.violation("C14.R7", f.qual, "pipeline finalizers get the output of the format method",
+                    f"the finalizers are handed the output of the format method; formats that collapse the list ({', '.join(nonlist[:4]) or 'str/bytes/json formats'}) hand them one string: the stock concat finalizer then joins its characters ('m ;; a ;; p …'), json/yaml finalizers dump a single string, bytes + concat raises TypeError", f.loc)
+    else:
+        r.violation("C14.R7", f.qual, f"finalizers receive {got}", "finalizers run on something that is not the query list", f.loc)
     r.floor("C14.R7", 1)
 
 
@@ -335,50 +368,6 @@ def r4_resolver(ctx) -> None:
     r, prog = ctx.r, ctx.prog
     r.rule("C14.R4", "the resolver sorts with the total, argument-order-independent key (priority, spec path) — the spec is unique per resolved pipeline — and folds with sum(); an empty list yields an empty pipeline")
     f = prog.func("sigma.processing.resolver.ProcessingPipelineResolver.resolve")
-    src_nodes = list(ast.walk(f.node))
-    sorts = [c for c in src_nodes if isinstance(c, ast.Call) and call_name(c) == "sorted"]
-    if len(sorts) != 1:
-        raise AnalysisError(f"{f.qual}: expected exactly one sorted() call")
-    s = sorts[0]
-    loc = f"{f.module.relpath}:{s.lineno}"
-    key = next((kw.value for kw in s.keywords if kw.arg == "key"), None)
-    rev = next((kw.value for kw in s.keywords if kw.arg == "reverse"), None)
-    if rev is not None and not (isinstance(rev, ast.Constant) and rev.value is False):
-        r.violation("C14.R4", f.qual, short(s, 120), "pipelines are sorted in reverse priority order", loc)
-    if isinstance(key, ast.Lambda) and isinstance(key.body, ast.Tuple) and len(key.body.elts) == 2:
-        p = key.args.args[0].arg
-        a, b = unparse(key.body.elts[0]), unparse(key.body.elts[1])
-        if a == f"{p}.priority" and b == f"{p}.path":
-            r.ok("C14.R4", f.qual, f"key=({a}, {b})", loc)
-        else:
-            r.violation("C14.R4", f.qual, f"key=({a}, {b})",
-                        "the sort key is not (priority, spec path): a tie-breaker that is not unique per resolved pipeline (e.g. the pipeline's own name attribute) lets equal-priority pipelines keep argument order, so the result depends on the order in which they were named", loc)
-    else:
-        r.violation("C14.R4", f.qual, short(s, 120), "sort key is not a (priority, tie-breaker) pair: equal priorities are ordered by argument position", loc)
-    infos = [c for c in src_nodes if isinstance(c, ast.Call) and call_name(c) == "PipelineInfo" and c.keywords]
-    okp = False
-    for c in infos:
-        kws = {kw.arg: unparse(kw.value) for kw in c.keywords}
-        if kws.get("priority") == "pipeline.priority" and kws.get("path") == "spec" and kws.get("pipeline") == "pipeline":
-            okp = True
-    if okp:
-        r.ok("C14.R4", f.qual, "PipelineInfo(pipeline=pipeline, priority=pipeline.priority, path=spec)", f.loc)
-    else:
-        r.violation("C14.R4", f.qual, "PipelineInfo(pipeline=pipeline, priority=pipeline.priority, path=spec)", "sort record no longer carries the pipeline's own priority and its spec", f.loc)
-    par = prog.parent(s)
-    summed = False
-    for anc in prog.ancestors(s):
-        if isinstance(anc, ast.Call) and call_name(anc) == "sum":
-            summed = True
-    if summed:
-        r.ok("C14.R4", f.qual, "sum([p.pipeline for p in sorted(...)]) — left fold in sorted order", loc)
-    else:
-        r.violation("C14.R4", f.qual, short(s, 100), "sorted pipelines are not folded with sum() in sorted order", loc)
-    rets = [x for x in walk_no_nested(f.node) if isinstance(x, ast.Return)]
-    if rets and isinstance(rets[-1].value, ast.BoolOp) and unparse(rets[-1].value.values[-1]) == "ProcessingPipeline()":
-        r.ok("C14.R4", f.qual, "empty specification list → ProcessingPipeline()", f.loc)
-    else:
-        r.violation("C14.R4", f.qual, "... or ProcessingPipeline()", "empty list no longer resolves to the empty pipeline", f.loc)
     # `sum(...) or ProcessingPipeline()` (and every `if pipeline:` test) treats a pipeline object as "present": it must never be falsy
     pc = prog.cls(PP)
     falsy = [(b, m) for b in prog.mro(PP) if b in prog.classes for m in ("__bool__", "__len__") if m in prog.classes[b].methods]
@@ -388,20 +377,18 @@ def r4_resolver(ctx) -> None:
     else:
         r.ok("C14.R4", PP, "a pipeline object is always truthy (no __bool__/__len__), as the `or ProcessingPipeline()` fallback assumes", f"{pc.module.relpath}:{pc.node.lineno}")
     _r4_which_pipelines(ctx, f)
-    r.floor("C14.R4", 5)
+    r.floor("C14.R4", 2)
 
 
 def _r4_which_pipelines(ctx, f: FuncInfo) -> None:
     """resolve() interpreted (sa.tabulate) with stand-ins for the file system and the registry: the combined pipeline consists
     of exactly the named pipelines, in (priority, spec) order, independent of what the working directory contains."""
-    from collections import namedtuple
-    from functools import reduce
-    from ..tabulate import Interp, Raised
-    r = ctx.r
+    from ..tabulate import Raised
+    r, prog = ctx.r, ctx.prog
 
     class _P:
         def __init__(self, names, priority=0):
-            self.names, self.priority, self.name = names, priority, None
+            self.names, self.priority, self.name = names, priority, "same"
 
         def __add__(self, o):
             return _P(self.names + o.names)
@@ -424,34 +411,35 @@ def _r4_which_pipelines(ctx, f: FuncInfo) -> None:
         def __str__(self):
             return self.s
 
-    me = type("R", (), {})()
-    me.pipelines = {"sysmon": object(), "custom": object()}
-    prio = {"sysmon": 10, "custom": 20, "rules/pipelines/a.yml": 5, "rules/pipelines/b.yml": 30}
-    me.resolve_pipeline = lambda spec, target=None: _P([spec], prio.get(spec, 50))
-    cases = [(["custom", "sysmon"], ["sysmon", "custom"], "a registered name wins over a directory of the same name in the working directory"),
+    RS = "sigma.processing.resolver.ProcessingPipelineResolver"
+    from ..tabulate import Proxy, call_method
+    prio = {"sysmon": 10, "custom": 20, "rules/pipelines/a.yml": 5, "rules/pipelines/b.yml": 30, "tie_b": 7, "tie_a": 7, "tie_c": 7, "low": 1, "high": 99}
+    cases = [(["custom", "sysmon"], ["sysmon", "custom"], "a registered name wins over a directory of the same name in the working directory; lower priority first"),
              (["custom", "rules/pipelines/"], ["rules/pipelines/a.yml", "custom", "rules/pipelines/b.yml"], "a directory specifier loads the files below it"),
              (["sysmon", "*"], ["sysmon", "*"], "the specifier '*' is a name, not every file below the working directory"),
-             ([], [], "no specifier, no pipeline")]
+             (["high", "low", "custom"], ["low", "custom", "high"], "ascending priority"),
+             (["tie_b", "tie_a", "tie_c"], ["tie_a", "tie_b", "tie_c"], "equal priorities are ordered by the specifier (unique per resolved pipeline), whatever the argument order"),
+             (["tie_c", "tie_b", "tie_a"], ["tie_a", "tie_b", "tie_c"], "equal priorities are ordered by the specifier, whatever the argument order"),
+             (["tie_a", "tie_c", "low", "tie_b"], ["low", "tie_a", "tie_b", "tie_c"], "equal priorities are ordered by the specifier, whatever the argument order"),
+             ([], [], "no specifier, the empty pipeline")]
     bad = []
     for specs, want, what in cases:
-        it = Interp({"self": me, "pipeline_specs": list(specs), "target": None, "namedtuple": namedtuple, "reduce": reduce, "Path": _Path,
-                     "ProcessingPipeline": lambda: _P([])}, max_steps=5000)
+        env = {"Path": _Path, "ProcessingPipeline": lambda: _P([]), "cast": lambda t, v: v}
+        # every resolved pipeline carries the same name attribute: a tie-breaker must not rely on it
+        me = Proxy(prog, RS, env, {"pipelines": {"sysmon": object(), "custom": object()}, "resolve_pipeline": lambda spec, target=None: _P([spec], prio.get(spec, 50))}, interp_kwargs={"max_steps": 8000})
         try:
-            out = it.call(f.node.body)
+            out = call_method(prog, RS, "resolve", me, env, list(specs), None, interp_kwargs={"max_steps": 8000})
         except Raised as ex:
             bad.append((specs, f"raises {ex}", what))
             continue
-        except AnalysisError as ex:  # a body the interpreter cannot follow is no verdict
-            r.note(f"C14.R4: resolve() not interpreted for {specs}: {ex}")
-            continue
-        got = list(getattr(out, "names", []))
+        got = list(out.names) if isinstance(out, _P) else repr(out)
         if got != want:
             bad.append((specs, f"combines {got}, specified {want}", what))
     if bad:
         specs, why, what = bad[0]
-        r.violation("C14.R4", f.qual, f"resolve({specs})", f"{why} ({what}; +{len(bad) - 1} more case(s)): which pipelines are combined depends on the contents of the working directory, and resolve() disagrees with resolve_pipeline()", f.loc)
+        r.violation("C14.R4", f.qual, f"resolve({specs})", f"{why} ({what}; +{len(bad) - 1} more case(s)): the resolver must sort with the total, argument-order-independent key (priority, spec path) and fold with sum() in sorted order — which pipelines are combined must not depend on the contents of the working directory or on the order in which they were named, and resolve() must agree with resolve_pipeline(); an empty list yields the empty pipeline", f.loc)
     else:
-        r.ok("C14.R4", f.qual, f"resolve() interpreted on {len(cases)} specifier lists: exactly the named pipelines, registered names before directories", f.loc)
+        r.ok("C14.R4", f.qual, f"resolve() interpreted on {len(cases)} specifier lists: exactly the named pipelines, registered names before directories, sorted by (priority, specifier) in every argument order, folded left to right; the empty list gives an empty pipeline", f.loc)
 
 
 def r5_operands_not_consumed(ctx, rid: str = "C14.R5", skip_clear: bool = False) -> None:
